@@ -1,7 +1,8 @@
 use crate::{
     character_class::CharacterClass,
     operation::{
-        ForceProgressIterator, Operation, OperationControl, RepeatOperation, MATCHES_ZLS_ANYWHERE,
+        ForceProgressIterator, Operation, OperationControl, RepeatOperation, RestoreGroupsIterator,
+        MATCHES_ZLS_ANYWHERE,
     },
     re_flags::ReFlags,
     re_matcher::ReMatcher,
@@ -82,9 +83,12 @@ impl OperationControl for Repeat {
 
     fn matches_iter<'a>(
         &'a self,
-        matcher: &'a ReMatcher,
+        matcher: &'a ReMatcher<'a>,
         position: usize,
     ) -> Box<dyn Iterator<Item = usize> + 'a> {
+        let saved = self
+            .contains_capturing_expressions()
+            .then(|| matcher.group_state());
         let mut iterators: Vec<Box<dyn Iterator<Item = usize>>> = Vec::new();
         let mut positions = Vec::new();
         // a term that consumes input can iterate at most once per remaining
@@ -122,27 +126,35 @@ impl OperationControl for Repeat {
             }
             // Now return an iterator which returns all the matching positions
             // in order
-            Box::new(ForceProgressIterator::new(Box::new(
-                GreedyRepeatIterator::new(
-                    matcher,
-                    self.operation.as_ref(),
-                    iterators,
-                    positions,
-                    bound,
-                    self.min,
-                ),
-            )))
+            RestoreGroupsIterator::wrap(
+                matcher,
+                saved,
+                Box::new(ForceProgressIterator::new(Box::new(
+                    GreedyRepeatIterator::new(
+                        matcher,
+                        self.operation.as_ref(),
+                        iterators,
+                        positions,
+                        bound,
+                        self.min,
+                    ),
+                ))),
+            )
         } else {
             // reluctant (non-greedy) repeat.
-            Box::new(ForceProgressIterator::new(Box::new(
-                ReluctantRepeatIterator::new(
-                    matcher,
-                    self.operation.as_ref(),
-                    position,
-                    self.min,
-                    self.max,
-                ),
-            )))
+            RestoreGroupsIterator::wrap(
+                matcher,
+                saved,
+                Box::new(ForceProgressIterator::new(Box::new(
+                    ReluctantRepeatIterator::new(
+                        matcher,
+                        self.operation.as_ref(),
+                        position,
+                        self.min,
+                        self.max,
+                    ),
+                ))),
+            )
         }
     }
 
